@@ -19,7 +19,7 @@ after the split the real code runs on concrete objects.
 """
 import copy
 
-from symx.env import NoTracing, check, Fail, pick, R, set_load_factor
+from symx.env import NoTracing, check, Fail, pick, R, set_load_factor, known_finding
 from symx import docenv
 from symx.docenv import text_of, Snapshot
 from autobean_refactor import models
@@ -104,7 +104,22 @@ popmeta zz: ; pc
   Equity:I  0
 '''
 
-DOCS = {'A': DOC_A, 'B': DOC_B}
+# Document C: the same constructs written as compactly as the grammar allows (no blank between a child and its left neighbour):
+# removing or replacing a child must not take a glued neighbour with it.
+DOC_C = '''plugin "p""cfg"
+pushmeta kk:1
+2000-01-01 open Assets:A USD,EUR"STRICT";c
+2000-01-01 balance Assets:A 1~0.01 USD;c
+2000-01-01 note Assets:A "n"#a^b
+2000-01-01 *"payee""narr"#tag^link;ic
+  kk:"v"
+  Assets:A  1USD{2EUR}@3GBP;pic
+    reason:"moved";mic
+  Assets:B  -1 USD@@4 CHF
+  Assets:C  @1.5 USD
+'''
+
+DOCS = {'A': DOC_A, 'B': DOC_B, 'C': DOC_C}
 SLOT_DESCRIPTORS = (P.required_node_property, P.optional_node_property, P.unordered_node_property)
 
 
@@ -170,6 +185,18 @@ def field_of_slot(m, name):
     """The `fields.field` name that backs slot `name` (raw_x -> _x); None when the class stores it differently."""
     fn = '_' + name[4:] if name.startswith('raw_') else None
     return fn if fn in docenv.field_names(type(m)) else None
+
+
+KF_GLUE = 'C06-number-removed-from-compact-posting-glues-currency-to-account'
+
+
+def glued_currency(m, name, new):
+    """The recorded finding, and nothing else: the number of a posting written without a blank before its currency (`Assets:A  1USD`)
+    was just removed, and the currency now directly follows the account (`Assets:AUSD` lexes as one account)."""
+    if type(m).__name__ != 'Posting' or name not in ('raw_number', 'number') or new is not None or m.raw_currency is None:
+        return False
+    st = m.token_store
+    return st.get_prev(m.raw_currency) is m.raw_account.last_token
 
 
 def run_config(doc, mi, si, di, facet, lf=None, twin=False):
@@ -251,6 +278,8 @@ def run_config(doc, mi, si, di, facet, lf=None, twin=False):
         docenv.tree_invariant(f, what=what)
         return 'ok'
     if facet == 'reparse':
+        if glued_currency(m, name, donor) and known_finding(KF_GLUE):
+            return 'ok'
         docenv.reparse_equivalent(f, what=what)
         return 'ok'
     after = Snapshot(store)
@@ -313,6 +342,8 @@ def run_value(doc, mi, pi, vi, facet, lf=None, twin=False):
         docenv.tree_invariant(f, what=what)
         return 'ok'
     if facet == 'reparse':
+        if glued_currency(m, name, v) and known_finding(KF_GLUE):
+            return 'ok'
         if name != 'indent':      # C06 excludes indent overrides
             docenv.reparse_equivalent(f, what=what)
         return 'ok'
